@@ -21,6 +21,7 @@ def step (s : St) (toks : List String) : St × List String :=
     ({ doc := update panicResetsClone s.doc s.buf o, buf := [] }, ["done"])
   | ["REM"] => ({ doc := applyRemote s.doc s.buf, buf := [] }, ["done"])
   | ["ACK", n] => ({ s with doc := ack s.doc (parseNatD n) }, ["done"])
+  | ["SCN", _] => (s, ["scenario"])
   | ["M"] => (s, [marshalV s.doc.root.d 64 [] rootId])
   | ["MC"] => (s, [marshalV (ensureClone s.doc).d 64 [] rootId])
   | ["L"] => (s, [s!"locals={s.doc.locals.length} seq={s.doc.seq}"])
